@@ -578,35 +578,46 @@ func checkRangeTest(c *report.Ctx, f *ssa.Function, mod, lo, hi int64, what stri
 	}
 	p := c.P
 	var hasMod, hasLo, hasHi bool
+	// the test may live in a helper of the same package that f calls (depth 1)
+	scan := []*ssa.Function{f}
 	an.Instrs(f, func(in ssa.Instruction) {
-		b, ok := in.(*ssa.BinOp)
-		if !ok {
-			return
-		}
-		k, isK := constInt(b.Y)
-		switch b.Op {
-		case token.REM:
-			if isK && k == mod {
-				hasMod = true
-			}
-		case token.LSS:
-			if isK && k == lo {
-				hasLo = true
-			}
-		case token.GTR:
-			if isK && k == hi {
-				hasHi = true
-			}
-		case token.LEQ:
-			if isK && k == lo-1 {
-				hasLo = true
-			}
-		case token.GEQ:
-			if isK && k == hi+1 {
-				hasHi = true
+		if cc := an.CallOf(in); cc != nil {
+			if g := cc.StaticCallee(); g != nil && g.Blocks != nil && g != f && an.FuncPkg(g) == an.FuncPkg(f) {
+				scan = append(scan, g)
 			}
 		}
 	})
+	for _, sf := range scan {
+		an.Instrs(sf, func(in ssa.Instruction) {
+			b, ok := in.(*ssa.BinOp)
+			if !ok {
+				return
+			}
+			k, isK := constInt(b.Y)
+			switch b.Op {
+			case token.REM:
+				if isK && k == mod {
+					hasMod = true
+				}
+			case token.LSS:
+				if isK && k == lo {
+					hasLo = true
+				}
+			case token.GTR:
+				if isK && k == hi {
+					hasHi = true
+				}
+			case token.LEQ:
+				if isK && k == lo-1 {
+					hasLo = true
+				}
+			case token.GEQ:
+				if isK && k == hi+1 {
+					hasHi = true
+				}
+			}
+		})
+	}
 	key := sk(f) + ":range-test"
 	if hasMod && hasLo && hasHi {
 		c.OK(key, fmt.Sprintf("%s: multiple of %d within [%d,%d]", what, mod, lo, hi), p.Pos(f.Pos()))
